@@ -11,6 +11,11 @@ import PdModel.Proto
       → set of `<file>:<line>:<cls>` for an object moved by a re-export
 * `inherit <fmt> <srcFile> <srcLinenumber> <strLineno> <u:value> <-|file.ln,…> <cls:raw:j>*`
       → set of `<file>:<line>:<cls>` printed when the source and the inheriting objects are rendered
+* `src <strLineno> <p:piece codes> <marks>` (1114112 nl, 1114113 cont, 1114114 escNl) → value, docstring_lineno, last line, per mark `phys:valueLine`
+* `getlineno <nodeLine|N> <u:nodeRaw> (<line|N> <u:rawsource>)*` → `get_lineno`
+* `attr <classDl> <off> (f:<fieldLineno> | d:<ownDl>)*` → which text is rendered, reported line, docstring_lineno
+* `napoleon <g|n> <hdr> <t<extra>|u<extra>,…>` → written line, `:param` line, `:type` line of every entry
+* `parser <fmt> <u:value> <cls:raw:j>*` → `Field.lineno`s and `ParseError._linenum`s the parser stores
 * `inrange <strLineno> <u:value> <isModule> <linenumber> <d|x|o> <offset>` → `<line> in|out`
 * `sys <W> <verbosity> <op>*`  ops: `m:<sec>:<msg>:<thresh>:<top>:<once>`, `r:<sec>:<obj>:<nerrs>`
       (reportErrors), `v:<n>` (set violations), `p:<sec>:<obj>` (add name), `k:<sec>` (touch key)
@@ -60,7 +65,7 @@ def parseIOCons (tok : String) : Option IOCons :=
   | [c, r, j] => do
     let raw ← r.toNat?
     let jj ← j.toNat?
-    if ["E", "U", "P", "X", "B", "D", "T"].contains c then some ⟨c, raw, jj⟩ else none
+    if ["E", "U", "P", "X", "B", "D", "T", "W"].contains c then some ⟨c, raw, jj⟩ else none
   | _ => none
 
 /-- line and class letter printed for one protocol construct of a literal -/
@@ -71,6 +76,7 @@ def ioLine (fmt : Fmt) (sl : Nat) (doc : List Char) (ln : Int) (im : Bool) (c : 
   | "B" => (report o .docstring (rstFieldLineno docutilsBase .bulletItem i), "P")
   | "D" => (report o .docstring (rstFieldLineno docutilsBase .deflistItem i), "P")
   | "T" => (report o .xref (classifierXrefOffset docutilsBase i), "X")
+  | "W" => (report o .docstring (typeWarningOffset (fieldStoredLineno docutilsBase fmt i)), "W")
   | t => match parseCls t with
     | some cls => (reportedLine fmt sl doc ln im ⟨cls, c.raw, c.j⟩, showCls cls)
     | none => (.unknown, "?")
@@ -78,6 +84,43 @@ def ioLine (fmt : Fmt) (sl : Nat) (doc : List Char) (ln : Int) (im : Bool) (c : 
 /-- epytext: a fatal markup error leaves only the errors -/
 def ioReported (fmt : Fmt) (cs : List IOCons) : List IOCons :=
   if fmt = .epytext ∧ cs.any (fun c => c.tag == "E") then cs.filter (fun c => c.tag == "E") else cs
+
+def parsePieces (tok : String) : Option (List Piece) :=
+  if tok == "p:" then some [] else
+  if tok.startsWith "p:" then
+    ((tok.drop 2).toString.splitOn ".").mapM fun t => do
+      let n ← t.toNat?
+      some (if n == 1114112 then Piece.nl else if n == 1114113 then Piece.cont
+            else if n == 1114114 then Piece.escNl else Piece.ch (Char.ofNat n))
+  else none
+
+def parseOptInt (s : String) : Option (Option Int) :=
+  if s == "N" then some none else (parseInt s).map some
+
+def parseRawAncs : List String → Option (List RawAnc)
+  | [] => some []
+  | l :: r :: rest => do
+    let line ← parseOptInt l
+    let raw ← Proto.decodeStr r
+    let tl ← parseRawAncs rest
+    some (⟨line, raw⟩ :: tl)
+  | _ => none
+
+def parseEntries (tok : String) : Option (List Entry) :=
+  if tok == "-" then some [] else
+  (tok.splitOn ",").mapM fun t =>
+    match t.toList with
+    | 't' :: ds => (String.ofList ds).toNat?.map fun n => ⟨true, n⟩
+    | 'u' :: ds => (String.ofList ds).toNat?.map fun n => ⟨false, n⟩
+    | _ => none
+
+def attrOps (a : AttrDoc) (classDl : Int) : List String → Option AttrDoc
+  | [] => some a
+  | t :: ts =>
+    match t.splitOn ":" with
+    | ["f", n] => do attrOps (a.extractField classDl (← parseInt n)) classDl ts
+    | ["d", n] => do attrOps (a.setDocstring (← parseInt n)) classDl ts
+    | _ => none
 
 def parseBool : String → Option Bool
   | "0" => some false | "1" => some true | _ => none
@@ -176,6 +219,45 @@ def handle (args : List String) : String :=
         toString p.descriptionFile ++ ":" ++ showLine r.1 ++ ":" ++ r.2
       " ".intercalate ((sortToks toks).eraseDups)
     | _, _, _, _, _, _, _ => "bad-op"
+  | ["src", sl, ps, marks] =>
+    match sl.toNat?, parsePieces ps, Proto.natList marks with
+    | some sl, some ps, some marks =>
+      let v := valueOf ps
+      "value=" ++ Proto.encodeStr v ++ " dl=" ++ toString (extractLinenum sl v) ++ " end=" ++ toString (sl + physNls ps)
+        ++ " marks=" ++ ",".intercalate (marks.map fun k => toString (physLineAt sl ps k) ++ ":" ++ toString (valueLineAt ps k))
+    | _, _, _ => "bad-op"
+  | "getlineno" :: nl :: nr :: ancs =>
+    match parseOptInt nl, Proto.decodeStr nr, parseRawAncs ancs with
+    | some nl, some nr, some ancs => toString (getLinenoRaw nl nr ancs)
+    | _, _, _ => "bad-op"
+  | "attr" :: cdl :: off :: ops =>
+    match parseInt cdl, parseInt off, (do attrOps {} (← parseInt cdl) ops) with
+    | some cdl, some off, some a =>
+      "renders=" ++ (if a.rendersField then "field" else "own") ++ " line=" ++ toString (a.xrefLine cdl off)
+        ++ " dl=" ++ toString a.docstringLineno
+    | _, _, _ => "bad-op"
+  | ["napoleon", kind, hdr, es] =>
+    match hdr.toNat?, parseEntries es with
+    | some hdr, some es =>
+      let numpy := kind == "n"
+      let idx := List.range es.length
+      "in=" ++ Proto.showNatList (idx.map (entryInLine numpy hdr es))
+        ++ " param=" ++ Proto.showNatList (idx.map (paramOutLine numpy hdr es))
+        ++ " type=" ++ Proto.showNatList (idx.filterMap fun k => if ((es[k]?).map (·.typed)).getD false then some (typeOutLine numpy hdr es k) else none)
+    | _, _ => "bad-op"
+  | "parser" :: fmt :: v :: cs =>
+    -- what the parser itself stores: Field.lineno of every field-level construct, ParseError._linenum of every error
+    match parseFmt fmt, Proto.decodeStr v, cs.mapM parseIOCons with
+    | some fmt, some doc, some cs =>
+      let idx (c : IOCons) : Int := (c.raw : Int) - (dropped doc : Nat)
+      let fatal := fmt == .epytext && cs.any (fun c => c.tag == "E")
+      let fields := if fatal then [] else (cs.filter fun c => ["U", "P", "B", "D"].contains c.tag).map fun c =>
+        toString (if c.tag == "B" then rstFieldLineno docutilsBase .bulletItem (idx c)
+                  else if c.tag == "D" then rstFieldLineno docutilsBase .deflistItem (idx c)
+                  else fieldStoredLineno docutilsBase fmt (idx c))
+      let errs := (cs.filter fun c => c.tag == "E").map fun c => toString (errorStoredLinenum docutilsBase fmt (idx c))
+      "fields=" ++ ",".intercalate ((sortToks fields).eraseDups) ++ " errs=" ++ ",".intercalate ((sortToks errs).eraseDups)
+    | _, _, _ => "bad-op"
   | ["inrange", sl, v, im, ln, sec, off] =>
     match sl.toNat?, Proto.decodeStr v, parseBool im, parseInt ln, parseSec sec, parseInt off with
     | some sl, some doc, some im, some ln, some sec, some off =>
